@@ -13,11 +13,15 @@ RULE = ("all histories up to the tier's length over the event alphabet {accepted
         "inside an included file, at the include depth limit, on a range error, inside a section, in a list; free + re-init; the same "
         "on a second context} followed by each of 12 probe parses into a brand-new context; oracle on the implementation alone: "
         "return code, diagnostics and tree dump of the probe equal those of the same probe run in a fresh process (a history-free "
-        "case); the model must agree as well; non-trivial = the history contains an aborted parse or a context switch")
+        "case); the model must agree as well; plus nested use: a function callback of a running parse (top level, in a section, one and "
+        "two include levels down) parses an accepted / aborted-in-string / failing / including text into a second context - the first "
+        "context's outcome must be the model's, which knows nothing of the nested parse; non-trivial = the history contains an aborted "
+        "parse or a context switch")
 EXHAUSTIVE = {"quick": True, "thorough": True}
 
 SCHEMA = [Opt("i", "int", 0, 1), Opt("s", "str", 0, b"d"), Opt("l", "int", LIST, [b"1"]), Opt("sec", "sec", 0, None, "-", [Opt("x", "int", 0, 0)]),
-          Opt("m", "sec", MULTI | TITLE, None, "-", [Opt("y", "str", 0, None)]), Opt("include", "func", 0, None, "I")]
+          Opt("m", "sec", MULTI | TITLE, None, "-", [Opt("y", "str", 0, None)]), Opt("include", "func", 0, None, "I"),
+          Opt("hook", "func", 0, None, "U")]
 
 EVENTS = {
     "ok": [b"i = 2\ns = ok\n"],
@@ -75,6 +79,22 @@ def generate(rng, tier):
         for p in probes:
             cases.append(mk("h%d" % n, list(h), p, root))
             n += 1
+    # a second context used *while* a parse of the first is running: a function callback (top level, inside a section,
+    # inside an included file, two include levels down) parses a text into context 1; context 0's outcome must be what
+    # the model - which knows nothing of the nested parse - predicts, i.e. what it is without it
+    nest_texts = [b"i = 5\n", b"i = 5\ninclude(\"good.conf\")\n", b's = "open\n', b"i = x\n", b'include("bad.conf")\n', b"sec { x = 4 }\n"]
+    hosts = [b'i = 1\nhook("%s")\ni = 2\nl = {7, 8}\n', b'i = 1\ninclude("n1.conf")\ns = after\n',
+             b'sec { x = 1 }\ninclude("n2.conf")\ns = after\nl += {3}\n', b'hook("%s") hook("%s")\ns = z\n']
+    for host in hosts:
+        for nt in nest_texts:
+            arg = (b"nest:" + nt).replace(b"\\", b"\\\\").replace(b'"', b'\\"').replace(b"\n", b"\\n")
+            cdir = "%s/n%d" % (root, n)
+            files = FILES + [("n1.conf", b'i = 10\nhook("' + arg + b'")\ni = 11\nl = {4}\n'), ("n2.conf", b'include("n1.conf")\ni = 12\n')]
+            lines = schema_lines(SCHEMA) + ["CWD " + hx(cdir)] + ["FILE %s reg %s" % (hx(nm), hx(c)) for nm, c in files]
+            text = host.replace(b"%s", arg)
+            lines += ["X 0 0", "X 1 0", "PB 0 " + hx(text), "D 0", "X 3 0", "PB 3 " + hx(PROBES[0]), "D 3"]
+            cases.append(Case("n%d" % n, lines, {"hist": [("nested", 0)], "probe": 0, "nested": True}))
+            n += 1
     # long random histories
     for _ in range(200 if tier == "quick" else 5000):
         h = [rng.choice(alphabet) for _ in range(rng.randint(4, 14))]
@@ -84,7 +104,8 @@ def generate(rng, tier):
 
 
 def project(lines, case):
-    return lines
+    # the harness reports the return code of a nested parse; the model does not run it
+    return [l for l in lines if not l.startswith("T nest ")]
 
 
 BASE = {}
@@ -106,6 +127,8 @@ def oracle(case, il, ctx):
     t = _tail(il)
     if t is None:
         return "malformed output"
+    if "hist" not in case.meta:       # a corpus case: the model comparison alone decides
+        return None
     if not case.meta["hist"]:
         BASE[case.meta["probe"]] = t
         return None
@@ -118,11 +141,13 @@ def oracle(case, il, ctx):
 
 
 def nontrivial(case, model_lines):
-    return any(e != "ok" for e, _c in case.meta["hist"]) or any(c == 1 for _e, c in case.meta["hist"])
+    hist = case.meta.get("hist", [("corpus", 0)])
+    return any(e != "ok" for e, _c in hist) or any(c == 1 for _e, c in hist)
 
 
 def stats(case, model_lines):
-    s = {"histlen_%d" % min(4, len(case.meta["hist"])): 1}
-    for e, c in case.meta["hist"]:
+    hist = case.meta.get("hist", [])
+    s = {"histlen_%d" % min(4, len(hist)): 1}
+    for e, c in hist:
         s["ev_" + e] = s.get("ev_" + e, 0) + 1
     return s
